@@ -490,6 +490,24 @@ func (f *frame) selectStmt(i *ssa.Select, n *node, st *State) *State {
 		var recvVals []*Term
 		if s.Dir == types.RecvOnly {
 			f.closable = x.isClosable(s.Chan)
+			// assertions attached to this receiving case (checked when it is the one taken)
+			if f.c != nil {
+				if fld := chanSiteName(s.Chan); fld != "" {
+					site := fmt.Sprintf("recv %s#%d", fld, f.siteOrd("recv "+fld, s.Pos))
+					if as := f.c.CallAsserts[site]; len(as) > 0 {
+						x.hitSites[site] = true
+						for _, a := range as {
+							sc := x.newSpecCtx(f, n, b, x.entryState)
+							sc.anchor = s.Pos
+							g := sc.evalBool(a.Expr)
+							o := x.oblige("assert@"+site, a.Tags, b.pc, g, s.Pos, a.Text)
+							o.Reveal = a.Reveal
+							o.By = a.By
+							x.assumeLabelled(b.pc, g, "asserted at "+site, a.Label)
+						}
+					}
+				}
+			}
 			v, ok := f.chanRecvOp(cases[k].ch, b)
 			recvOk = ok
 			recvVals = v.C
